@@ -31,7 +31,7 @@ def p_media(ml):
     return tuple(vtoks(q.value.mediaText.lower()) for q in ml)
 
 
-def p_rule(r, with_comments=True, specificity=True):
+def p_rule(r, with_comments=True, specificity=True, resolved=False):
     t = r.type
     if t == r.COMMENT:
         return ('comment', comment_text(r)) if with_comments else None
@@ -44,9 +44,14 @@ def p_rule(r, with_comments=True, specificity=True):
     if t == r.STYLE_RULE:
         sels = tuple(tuple(S.struct_of_text(s.selectorText)) for s in r.selectorList)
         spec = tuple(tuple(s.specificity) for s in r.selectorList)
+        if resolved:
+            # namespace resolution: subject element and the namespace URIs the selectors refer to
+            spec = (spec if specificity else (), tuple(s.element for s in r.selectorList),
+                    tuple(sorted(str(u) for u in r.selectorList._getUsedUris())))
+            return ('style', sels, spec, p_block(r.style, with_comments))
         return ('style', sels, spec if specificity else (), p_block(r.style, with_comments))
     if t == r.MEDIA_RULE:
-        rules = tuple(x for x in (p_rule(c, with_comments, specificity) for c in r.cssRules) if x is not None)
+        rules = tuple(x for x in (p_rule(c, with_comments, specificity, resolved) for c in r.cssRules) if x is not None)
         return ('media', p_media(r.media), rules)
     if t == r.PAGE_RULE:
         margins = []
@@ -69,8 +74,8 @@ def p_rule(r, with_comments=True, specificity=True):
     return ('other', t, r.cssText)
 
 
-def p_sheet(sheet, with_comments=True, specificity=True):
-    return tuple(x for x in (p_rule(r, with_comments, specificity) for r in sheet.cssRules) if x is not None)
+def p_sheet(sheet, with_comments=True, specificity=True, resolved=False):
+    return tuple(x for x in (p_rule(r, with_comments, specificity, resolved) for r in sheet.cssRules) if x is not None)
 
 
 def first_diff(a, b, path=''):
